@@ -15,7 +15,7 @@ TRUSTED = ["oracles: scipy KDTree.query_pairs (its set is validated against the 
 
 def contacts(s3):
     """every (acceptor, donor) contact between different residues in the sense of the property, from first principles (O(n^2))"""
-    from rnapolis import tertiary as T
+    from . import chem as T
     out = []
     R = s3.residues
     cand = []
@@ -51,7 +51,7 @@ def contacts(s3):
 
 def spec(s3, pairs):
     """soundness, edge exclusivity and maximality, decided directly; returns (failure or None, undecided?)"""
-    from rnapolis import tertiary as T
+    from . import chem as T
     from rnapolis.annotator import detect_cis_trans
     R = s3.residues
     cs = contacts(s3)
